@@ -96,6 +96,16 @@ def seeds():
         p = trimesh.load_path(np.array([[[0, 0], [1, 0]], [[1, 0], [1, 1]], [[1, 1], [0, 0]]], dtype=np.float64))
         add("dxf", p.export(file_type="dxf"))
         add("svg", p.export(file_type="svg"))
+        # a drawing with curved entities: radii and angles are numbers a single corrupted digit can blow up
+        from trimesh.path.entities import Arc, Line
+
+        pa = trimesh.path.Path2D(
+            entities=[Line([0, 1]), Arc([1, 2, 3]), Line([3, 0]), Arc([4, 5, 6], closed=True)],
+            vertices=np.array([[0, 0], [2, 0], [3, 1], [2, 2], [6, 1], [7, 2], [8, 1]], dtype=np.float64),
+            process=False,
+        )
+        add("dxf", pa.export(file_type="dxf"))
+        add("svg", pa.export(file_type="svg"))
     except BaseException:  # noqa
         pass
     try:
